@@ -987,6 +987,11 @@ func pairAlphabet(tier string) []call {
 		add("compile", "let alpha1 = 1; let alpha2 = 2; let alpha3 = 3; let beta = alpha + alphaX; T | take beta", opt)
 		add("compile", "let window_us = 1; T | where f(window_s) > window_us | project window_ns", opt)
 	}
+	// a binding used several times (in the pipeline and in a join's right-hand side), for every kind of value
+	for _, v := range []string{"now()", "now() - 3600", "f(now())", "strcat('a', 'b')", "-5", "1 + 2", "'s'", "p"} {
+		add("compile", "let t = "+v+"; T | where a > t | join (R | where b > t) on k | extend c = t", 3)
+		add("compile", "let t = "+v+"; let u = t; T | where a > u and b < t | project t2 = t, u2 = u", -1)
+	}
 	progs := gen.Programs()
 	single := len(gen.OperatorVariants())
 	for i, p := range progs {
